@@ -29,7 +29,7 @@ PROPS = {
             "panic-message formatting (Variable::string/debug) stubbed in K",
         ]),
     "C04": dict(
-        probes=["fold", "logic", "twins"],
+        probes=["fold", "logic", "twins", "twins_random"],
         explanation="operator-level kernel of C04: each recreate-time function agrees with the run-time function on constant "
                     "operands, raises an early error only for an operation that fails whenever evaluated, and otherwise "
                     "rebuilds the instruction with the same operator and operands; branch pruning by IfElse::recreate "
